@@ -304,11 +304,15 @@ func c17Main(args []string) int {
 	fs := flag.NewFlagSet("C17", flag.ExitOnError)
 	procs := fs.Int("procs", runtime.NumCPU(), "worker processes")
 	only := fs.String("scenario", "", "scenario prefix")
+	replay := fs.String("replay", "", "replay a violation artefact")
 	fs.Parse(args)
 	scs := c17Scenarios()
 	if fs.NArg() > 0 && fs.Arg(0) == "worker" {
 		sched.WorkerMain(scs)
 		return 0
+	}
+	if *replay != "" {
+		return sched.ReplayFile("C17", scs, *replay)
 	}
 	rep := common.NewReport("C17", "model_checking")
 	c17Sequential(rep)
